@@ -229,20 +229,25 @@ def decStrN (w : Nat) (bs : Bytes) : Option (Wire × Bytes) :=
   | none => none
   | some (n, r) => decStrBody n r
 
-/-- `DecodeString` for a map key (decode_string.go:34-60, 10-32): nil, str and bin formats -/
+/-- length prefix of `w` bytes, then the key -/
+def decKeyN (w : Nat) (bs : Bytes) : Option (Bytes × Bytes) :=
+  match readBE w bs with
+  | none => none
+  | some (l, r) => takeN l r
+
+/-- `d.string(c)` for a map key after the code byte `n` (decode_string.go:46-60, `bytesLen` :10-32) -/
+def decKeyBody (n : Nat) (bs : Bytes) : Option (Bytes × Bytes) :=
+  if n = 0xc0 then some ([], bs)                          -- nil: the empty key
+  else if 0xa0 ≤ n ∧ n ≤ 0xbf then takeN (n - 0xa0) bs    -- fixstr
+  else if n = 0xd9 ∨ n = 0xc4 then decKeyN 1 bs           -- str8 / bin8
+  else if n = 0xda ∨ n = 0xc5 then decKeyN 2 bs           -- str16 / bin16
+  else if n = 0xdb ∨ n = 0xc6 then decKeyN 4 bs           -- str32 / bin32
+  else none
+
+/-- `DecodeString` for a map key (decode_string.go:34-44): nil, str and bin formats -/
 def decKey : Bytes → Option (Bytes × Bytes)
   | [] => none
-  | c :: bs =>
-    let n := c.toNat
-    if n = 0xc0 then some ([], bs)
-    else if 0xa0 ≤ n ∧ n ≤ 0xbf then takeN (n - 0xa0) bs
-    else if n = 0xd9 ∨ n = 0xc4 then
-      match readBE 1 bs with | none => none | some (l, r) => takeN l r
-    else if n = 0xda ∨ n = 0xc5 then
-      match readBE 2 bs with | none => none | some (l, r) => takeN l r
-    else if n = 0xdb ∨ n = 0xc6 then
-      match readBE 4 bs with | none => none | some (l, r) => takeN l r
-    else none
+  | c :: bs => decKeyBody c.toNat bs
 
 /-- `decodeSlice` (decode_slice.go:157-176): `n` elements -/
 def decList (dec : Bytes → Option (Wire × Bytes)) : Nat → Bytes → Option (List Wire × Bytes)
